@@ -283,7 +283,7 @@ def cvt_archives(case):
             cents = np.array([[off * (k + 1) + s * asp[k] * (r.randrange(-4, 5) / 4) for k in range(nd)] for _ in range(n)])
         cents = cents.astype(NP[dt])
     out = {}
-    for name, kw in [("kd_tree", {"use_kd_tree": True}), ("brute", {"use_kd_tree": False}),
+    for name, kw in [("kd_tree", {}), ("brute", {"use_kd_tree": False}),        # k-D tree: the documented default
                      ("chunked", {"use_kd_tree": False, "chunk_size": 3})]:
         out[name] = CVTArchive(solution_dim=1, cells=len(cents), ranges=ranges, custom_centroids=cents, dtype=NP[dt], **kw)
     return cents, out
